@@ -53,6 +53,15 @@ def allValidNoRootB (s : Sys) (ops : List Op) : Bool :=
 def allSimpleB (s : Sys) (ops : List Op) : Bool :=
   (ops.foldl (fun (acc : FS × Bool) op => ((kernelOp acc.1 s.k op).1, acc.2 && validOp acc.1 op && simpleKind op)) (s.fs, true)).2
 
+/-- a paced history: bursts of operations, each burst issued back to back and read in one batch after its last operation
+    (a burst of one operation is a drained operation) -/
+def Sys.runBursts (s : Sys) : List (List Op) → Sys × List (List PEv)
+  | [] => (s, [])
+  | b :: rest =>
+    let (s1, evs) := s.burst b
+    let (s2, more) := s1.runBursts rest
+    (s2, evs :: more)
+
 /-- operations that only add entries: `mkdir` and file creation (a `mkdir -p` + populate burst) -/
 def growKind : Op → Bool
   | .mkdir _ | .create _ => true
@@ -65,5 +74,17 @@ def createdOf (evs : List PEv) : List (P × Bool) :=
 /-- executable twin of the hypothesis of `burst_grow` -/
 def allGrowB (s : Sys) (ops : List Op) : Bool :=
   (ops.foldl (fun (acc : FS × Bool) op => ((kernelOp acc.1 s.k op).1, acc.2 && validOp acc.1 op && growKind op)) (s.fs, true)).2
+
+/-- executable twin of `okBurst` / `pacedOK` (hypothesis of `paced_run`): every burst is a burst of file operations, a
+    nested creation burst, or one valid operation other than the removal of the root -/
+def okBurstB (s : Sys) (b : List Op) : Bool :=
+  allFileB s b || allGrowB s b ||
+    (match b with
+     | [op] => validOp s.fs op && (op != .rmdir ["W"])
+     | _ => false)
+
+def pacedOKB (s : Sys) : List (List Op) → Bool
+  | [] => true
+  | b :: rest => okBurstB s b && pacedOKB (s.burst b).1 rest
 
 end WD.Pipe
